@@ -22,7 +22,7 @@ def run(tier, replay=None):
     os.makedirs(os.path.join(COQ, "gen"), exist_ok=True)
     t_glob.emit(d, os.path.join(COQ, "gen", "Globals.v"))
     Ts = [2, 4, 8] if tier == "quick" else [2, 3, 4, 8, 12, 16]
-    shapes = [(s, T) for s in ("shared", "private", "mixed", "grow") for T in Ts]
+    shapes = [(s, T) for s in ("shared", "private", "mixed", "grow", "copies") for T in Ts]
     def bodies(s, T):
         if s == "shared":
             return "[" + "; ".join("[Compute 0; Compute 0]" for _ in range(T)) + "]"
@@ -66,6 +66,13 @@ def run(tier, replay=None):
         rc, out = sh([exe, "serial", "2", str(reps), cf, os.path.join(tmp, "serial.txt")], env=env, check=False, timeout=1800)
         ser = open(os.path.join(tmp, "serial.txt")).read().split("\n")[0].split()[2:] if rc == 0 else None
         verdicts = []; bit_bad = []; runs = 0
+        # per-thread serial reference of the integrator-copies shape (thread 0 does different work from the others)
+        ser_copies = {}
+        for T in Ts:
+            of = os.path.join(tmp, "serial_copies_%d.txt" % T)
+            rcs, _ = sh([exe, "copies-serial", str(T), str(reps), cf, of], env=env, check=False, timeout=1800)
+            if rcs == 0:
+                ser_copies[T] = [l.split()[2:] for l in open(of) if l.split()]
         procs = []
         for (s, T) in shapes:
             of = os.path.join(tmp, "o_%s_%d.txt" % (s, T))
@@ -78,7 +85,13 @@ def run(tier, replay=None):
                 verdicts.append((s, T, "crash", o[-500:])); continue
             where = re.findall(r"#0 ([^\n]*)", o)[:2]
             verdicts.append((s, T, raced, where))
-            if os.path.exists(of) and ser:
+            if s == "copies":
+                if os.path.exists(of) and T in ser_copies:
+                    for i, l in enumerate(open(of)):
+                        t = l.split()
+                        if len(t) >= 4 and i < len(ser_copies[T]) and t[2:] != ser_copies[T][i]:
+                            bit_bad.append((s, T, l.strip(), " ".join(ser_copies[T][i])))
+            elif os.path.exists(of) and ser:
                 for l in open(of):
                     t = l.split()
                     if len(t) >= 4 and t[2:] != ser:
